@@ -40,7 +40,7 @@ def pool_file():
 
 
 # ------------------------------------------------------------------------------------------------ flow: trace validation
-def flow_trace(ctx, suite, nq, nt, profile="release", chunk=4000, extra=(), label=None, timeout=None, keep=False):
+def flow_trace(ctx, suite, nq, nt, profile="release", chunk=4000, extra=(), label=None, timeout=None, keep=False, need=None):
     n = nq if ctx.quick() else nt
     label = label or suite
     out = f"{ctx.dir}/{label}-{profile}.ndjson"
@@ -72,6 +72,11 @@ def flow_trace(ctx, suite, nq, nt, profile="release", chunk=4000, extra=(), labe
             m = re.search(r'"op":"([^"]+)"', line)
             if m:
                 opcount[m.group(1)] = opcount.get(m.group(1), 0) + 1
+    # vacuity guard: the fixed preludes of a suite must not crowd out its randomised rounds (and vice versa)
+    if not hang:
+        for opn, k in (need or {}).items():
+            if opcount.get(opn, 0) < k:
+                raise ToolError(f"vacuous run: suite {suite} ({label}) produced {opcount.get(opn, 0)} '{opn}' events, at least {k} required")
     for b in res["bad"]:
         ev = fetch_event(b["file"], b["seq"])
         ctx.violations.append({"flow": "V", "suite": suite, "op": b["op"], "event": ev, "why": b["why"], "params": params})
@@ -353,7 +358,7 @@ def p_C15(ctx):
 
 
 def p_C10(ctx):
-    flow_trace(ctx, "encode", 3000, 60000, chunk=300)
+    flow_trace(ctx, "encode", 4700, 60000, chunk=300, need={"g.encode": 4500})
     flow_symwalk(ctx, acts={"codec"}, mode="constructive")
 
 
@@ -384,7 +389,7 @@ def p_C11(ctx):
 
 
 def p_C01(ctx):
-    flow_trace(ctx, "pairing", 330, 6000, chunk=24, extra=["--focus", "laws"])
+    flow_trace(ctx, "pairing", 330, 6000, chunk=24, extra=["--focus", "laws"], need={"pair.laws": 100, "pair": 100})
     flow_programs(ctx, "gmachine", 6, 28, 200, 1200, extra=["--focus", "pair"], label="gm-pair")
     pair_acts = {"pair", "gtsquare", "gtinv", "gtpow", "gtmulpair"}
     if ctx.quick():
@@ -394,14 +399,14 @@ def p_C01(ctx):
 
 
 def p_C02(ctx):
-    flow_trace(ctx, "pairing", 300, 5000, chunk=20, extra=["--focus", "vector"])
+    flow_trace(ctx, "pairing", 400, 5000, chunk=20, extra=["--focus", "vector"], need={"pair": 380})
     if not ctx.quick():
         # the pairing specification itself, instantiated on a toy BN curve on native integers (no Java): bilinearity grid
         flow_model(ctx, "MC_Toy82", workers=9, timeout=3600, xmx="6g", label="MC_Toy82")
 
 
 def p_C03(ctx):
-    flow_trace(ctx, "pairing", 420, 8000, chunk=30, extra=["--focus", "agree"])
+    flow_trace(ctx, "pairing", 1150, 8000, chunk=40, extra=["--focus", "agree"], need={"pair": 900, "prep.reuse": 60})
     flow_programs(ctx, "gmachine", 6, 28, 250, 1500, extra=["--focus", "prep"], label="gm-prep")
     if ctx.quick():
         flow_sympair(ctx, mode="walk", k=1, kg=2)
@@ -472,9 +477,9 @@ def p_C18(ctx):
     flow_dual(ctx, "decode", 10 ** 9, 10 ** 9, 700)
     flow_dual(ctx, "affine", 10 ** 9, 10 ** 9, 600, extra=["--in", tw])
     flow_dual(ctx, "group", 900, 12000, 300)
-    flow_dual(ctx, "encode", 360, 3600, 180)
+    flow_dual(ctx, "encode", 2100, 6000, 300)
     flow_dual(ctx, "gt", 120, 1500, 60, extra=["--focus", "nosweep"])
-    flow_dual(ctx, "pairing", 90, 900, 24, extra=["--focus", "agree"], label="pairing-agree")
+    flow_dual(ctx, "pairing", 640, 1500, 40, extra=["--focus", "agree"], label="pairing-agree")
     flow_dual(ctx, "pairing", 60, 600, 24, extra=["--focus", "laws"], label="pairing-laws")
     flow_dual(ctx, "tower", 100, 1000, 50)
     flow_dual(ctx, "gmachine", 300, 3000, 10 ** 9, extra=["--focus", "pair"], label="gmachine")
